@@ -57,20 +57,13 @@ func newC09Run(p *Prog) *c09Run {
 	installUnicodeModels(m)
 	installIOGlobals(m)
 	m.Hooks["fmt.Sprintf"] = sprintfModel
-	m.Hooks["(*bufio.Reader).ReadString"] = func(m *Machine, st *State, call *ssa.CallCommon, args []Val) ([]Val, bool) {
-		if d, ok := args[1].(int64); !ok || d != '\n' {
-			return nil, false
-		}
+	installLineReader(m, func(st *State) (string, bool) {
 		if r.nread >= len(r.script) {
-			return []Val{&TupleV{E: []Val{"", eofVal}}}, true
+			return "", false
 		}
-		l := r.script[r.nread]
 		r.nread++
-		if !strings.HasSuffix(l, "\n") {
-			return []Val{&TupleV{E: []Val{l, eofVal}}}, true
-		}
-		return []Val{&TupleV{E: []Val{l, nilV{}}}}, true
-	}
+		return r.script[r.nread-1], true
+	})
 	m.InvokeHook = func(m *Machine, st *State, call *ssa.CallCommon, recv Val, args []Val) ([]Val, bool) {
 		switch call.Method.Name() {
 		case "Write":
@@ -236,6 +229,12 @@ func deepRender(st *State, v Val, depth int) string {
 			parts = append(parts, deepRender(st, f, depth+1))
 		}
 		return "[" + strings.Join(parts, " ") + "]"
+	case *TupleV:
+		var parts []string
+		for _, f := range x.E {
+			parts = append(parts, deepRender(st, f, depth+1))
+		}
+		return "(" + strings.Join(parts, ", ") + ")"
 	case IfaceV:
 		return "iface(" + deepRender(st, x.V, depth+1) + ")"
 	case string:
